@@ -22,6 +22,9 @@ def _has_timeout(e):
 
 def main():
     spec = json.load(sys.stdin)
+    # the result travels on a private copy of fd 1; whatever the code under test print()s goes to stderr instead
+    result_out = os.fdopen(os.dup(1), "w")
+    os.dup2(2, 1)
     sys.path.insert(0, spec["verif"])
     import logging
     import warnings
@@ -76,7 +79,8 @@ def main():
             if bio.getvalue() != data:
                 rec["buffer_changed"] = True
         out[d["name"]] = rec
-    json.dump({"results": out, "clock_reads": clock.reads, "clock_patched": clock.patched, "hashseed": os.environ.get("PYTHONHASHSEED")}, sys.stdout)
+    json.dump({"results": out, "clock_reads": clock.reads, "clock_patched": clock.patched, "hashseed": os.environ.get("PYTHONHASHSEED")}, result_out)
+    result_out.flush()
 
 
 if __name__ == "__main__":
